@@ -132,3 +132,29 @@ theorem root_collision (H : Bytes → Bytes) (h32 : ∀ x, (H x).length = 32) :
     | [_], _ :: _ :: _, hx, hy => exact absurd (hx.trans hy.symm) (by simp)
     | _ :: _ :: _, [_], hx, hy => exact absurd (hx.trans hy.symm) (by simp)
 end M
+
+namespace M
+/-- `utils::merkle_root` as written: `while hashes.len() > 1 { hashes = <one level> }; *hashes.first().expect(..)` -/
+def rootRust (H : Bytes → Bytes) (hs : List Bytes) : Option Bytes :=
+  if _h : hs.length > 1 then rootRust H (levelRust H hs) else hs.head?
+termination_by hs.length
+decreasing_by
+  rw [levelRust_eq, level_length]; omega
+
+/-- the loop computes the textbook merkle root (and fails exactly on the empty list) -/
+theorem rootRust_eq (H : Bytes → Bytes) : ∀ (n : Nat) (hs : List Bytes), hs.length = n → rootRust H hs = root H hs := by
+  intro n
+  induction n using Nat.strongRecOn with
+  | _ n ih =>
+    intro hs hn
+    match hs, hn with
+    | [], _ => unfold rootRust root; simp
+    | [a], _ => unfold rootRust root; simp
+    | a :: b :: rest, hn =>
+      rw [rootRust, root.eq_3]
+      have hgt : (a :: b :: rest).length > 1 := by simp
+      simp only [hgt, dite_true]
+      rw [levelRust_eq]
+      have hl := level_length H (a :: b :: rest)
+      exact ih _ (by rw [hl, hn]; simp only [List.length_cons] at hn; omega) _ rfl
+end M
